@@ -201,8 +201,12 @@ def gen_history(rng: random.Random, nstruct=4, length=12, invalid_p=0.0, max_pin
             free = [p for p in tr.free() if p not in tr.mapped.values()]
             if free:
                 p = rng.choice(free)
-                name = f"x{nexpo[0]}"
-                nexpo[0] += 1
+                xs = [n for n in tr.mapped if n.startswith("x")]
+                if xs and rng.random() < 0.3:
+                    name = rng.choice(xs)          # the same external name mapped again, to another pin
+                else:
+                    name = f"x{nexpo[0]}"
+                    nexpo[0] += 1
                 emit(["map", name, list(p)])
                 tr.mapped[name] = p
         elif r < 0.83:
